@@ -227,15 +227,15 @@ func (ex *Exec) checkLockBalance(ctx *EvalCtx, ret *State) {
 	held := ex.heapGet(ret, "G:held", SArray(SInt, SInt))
 	rheld := ex.heapGet(ret, "G:rheld", SArray(SInt, SInt))
 	for _, l := range ex.lockTerms {
-		ex.oblige("lockbalance@return", ex.lockName(l), ex.fn.Pos(), []string{"C14"}, ret, ts.Eq(ts.Select(held, l), ts.Select(expH, l)))
+		ex.oblige("lockbalance@return", ex.lockName(l), ex.fn.Pos(), ex.lockProps(), ret, ts.Eq(ts.Select(held, l), ts.Select(expH, l)))
 	}
 	for _, l := range ex.rlockTerms {
-		ex.oblige("rlockbalance@return", ex.lockName(l), ex.fn.Pos(), []string{"C14"}, ret, ts.Eq(ts.Select(rheld, l), ts.Select(expR, l)))
+		ex.oblige("rlockbalance@return", ex.lockName(l), ex.fn.Pos(), ex.lockProps(), ret, ts.Eq(ts.Select(rheld, l), ts.Select(expR, l)))
 	}
 	if ex.heldHavocked {
 		// a contract redefined the whole held map (LockPile): all locks
 		l := ts.BoundVar("l", SInt)
-		ex.oblige("lockbalance@return", "all-locks", ex.fn.Pos(), []string{"C14"}, ret,
+		ex.oblige("lockbalance@return", "all-locks", ex.fn.Pos(), ex.lockProps(), ret,
 			ts.Forall([]*Term{l}, ts.And(ts.Eq(ts.Select(held, l), ts.Select(expH, l)), ts.Eq(ts.Select(rheld, l), ts.Select(expR, l)))))
 	}
 }
